@@ -318,10 +318,29 @@ pub fn one_case(r: &mut Rng, shape: &Shape) -> String {
                     let oip = ips.iter().find(|x| **x != ip).unwrap();
                     known.get(oip).and_then(|v| v.last().cloned()).unwrap_or_else(|| r.bytes(4))
                 }
+                5 if shape.focus == 2 => {
+                    // derived from a token issued to another ip, without the secret: CRC-32C is affine, so
+                    // token(A) xor token(B) = crc(A xor B || 0^20) xor crc(0^24) whatever the secret is
+                    let oip = ips.iter().find(|x| **x != ip).unwrap();
+                    match known.get(oip).and_then(|v| v.last().cloned()) {
+                        Some(t) if t.len() == 4 => {
+                            let c = crc::Crc::<u32>::new(&crc::CRC_32_ISCSI);
+                            let mut a = ((*oip) ^ ip).to_be_bytes().to_vec();
+                            a.extend_from_slice(&[0u8; 20]);
+                            let delta = c.checksum(&a) ^ c.checksum(&[0u8; 24]);
+                            let tv = u32::from_be_bytes([t[0], t[1], t[2], t[3]]) ^ delta;
+                            tv.to_be_bytes().to_vec()
+                        }
+                        _ => r.bytes(4),
+                    }
+                }
                 3 => {
                     // issued by another node to this ip
                     // the other node draws from its own random stream, not from the case's tape
+                    // (a rotation of its secrets inside this call must not read the bytes the server under test
+                    // will get for its own next secret)
                     let st = TAPE.lock().unwrap().rng.clone();
+                    tape_seed(tape_other ^ r.next());
                     let was = ALLOW.swap(true, Ordering::SeqCst);
                     let rep = other.handle_request(&RoutingTable::new(Id::from([1u8; 20])), &RoutingTable::new(Id::from([1u8; 20])), from, RequestSpecific { requester_id, request_type: RequestTypeSpecific::GetPeers(GetPeersRequestArguments { info_hash: Id::from([9u8; 20]) }) });
                     ALLOW.store(was, Ordering::SeqCst);
